@@ -219,6 +219,7 @@ impl World {
     fn mcommit(&mut self, ctx: &mut Ctx, p: &MigratePipelinePlan, ok: bool) {
         let gi = self.gid_of(&p.group_id.clone());
         self.coord.commit_migrate_pipeline(p, if ok { "new-id" } else { "" }, ok, if ok { None } else { Some("scripted".into()) });
+        self.note_migs();
         self.emit(ctx, &format!("mcommit {} {} {} {} {} {}", gi, p.pipeline_name, wnum(&p.source_worker_id), wnum(&p.target_worker_id), p.deployment.epoch, if ok { 1 } else { 0 }), "ok");
     }
     fn migrate(&mut self, ctx: &mut Ctx, rt: &tokio::runtime::Runtime, gi: u64, name: &str, target: u64, ok: bool) {
@@ -244,6 +245,7 @@ impl World {
         new.into_iter().map(|x| x.1).collect()
     }
     fn failover(&mut self, ctx: &mut Ctx, rt: &tokio::runtime::Runtime, w: u64, outcomes: &[bool]) {
+        self.note_migs();
         { let mut s = self.script.lock().unwrap(); s.clear(); s.extend(outcomes.iter().copied()); }
         let res = rt.block_on(self.coord.handle_worker_failure(&wid(w)));
         self.script.lock().unwrap().clear();
@@ -252,6 +254,7 @@ impl World {
         self.emit(ctx, &format!("failover {}", w), &format!("m:{}", if migs.is_empty() { "-".to_string() } else { migs.join(",") }));
     }
     fn drain(&mut self, ctx: &mut Ctx, rt: &tokio::runtime::Runtime, w: u64, outcomes: &[bool]) {
+        self.note_migs();
         let existed = self.coord.workers.get(&wid(w)).map(|n| n.status.clone());
         let placed: usize = self.coord.pipeline_groups.values().map(|g| g.placements.values().filter(|d| d.worker_id == wid(w)).count()).sum();
         { let mut s = self.script.lock().unwrap(); s.clear(); s.extend(outcomes.iter().copied()); }
@@ -392,7 +395,7 @@ fn run_c32(ctx: &mut Ctx, rt: &tokio::runtime::Runtime, base: &str, script: &Scr
         ctx.count(if guarded { "c32.scenario_guarded" } else { "c32.scenario_free" });
         let mut w = new_world(ctx, base, script, 15000, true);
         let nw = 2 + ctx.rng.below(2);
-        for i in 1..=nw { w.register(ctx, i, *ctx.rng.pick(&[2usize, 4, 100]), *ctx.rng.pick(&[1usize, 4]), 0); }
+        for i in 1..=nw { let m = *ctx.rng.pick(&[2usize, 4, 100]); let c = *ctx.rng.pick(&[1usize, 4]); w.register(ctx, i, m, c, 0); }
         let mut pending: Vec<Pending> = Vec::new();
         let steps = 14 + ctx.rng.below(22);
         for _ in 0..steps {
